@@ -22,6 +22,7 @@ func init() {
 		"bytes.Equal":  bytesEqual,
 		"google.golang.org/protobuf/proto.Unmarshal": protoUnmarshal,
 		"google.golang.org/protobuf/proto.Clone":     protoClone,
+		"google.golang.org/protobuf/proto.Marshal":   protoMarshal,
 		"crypto/sha512.Sum384": hashFn("sha384", 48),
 		"crypto/sha256.Sum256": hashFn("sha256", 32),
 		"crypto/sha512.Sum512": hashFn("sha512", 64),
@@ -316,4 +317,51 @@ func (f *Frame) cloneMsg(t types.Type, src string, st *State, g string, depth in
 		st.set(h, sto(st.get(h), nr, nv))
 	}
 	return nr
+}
+
+// protoMarshal: the output bytes decode back (pb field functions) to the message's current scalar and
+// bytes fields: Unmarshal(Marshal(m)) == m on those fields. May fail; reads only.
+func protoMarshal(f *Frame, in ssa.Instruction, args []SV, cc *ssa.CallCommon, st *State, g string) (SV, bool) {
+	c := f.c()
+	m := args[0]
+	if m.Dyn == nil || m.DynV == nil || m.DynV.T == "" {
+		return SV{}, false
+	}
+	pt, ok := m.Dyn.Underlying().(*types.Pointer)
+	if !ok {
+		return SV{}, false
+	}
+	s, ok := pt.Elem().Underlying().(*types.Struct)
+	if !ok {
+		return SV{}, false
+	}
+	f.x.syncViews(st)
+	f.x.usedStub["model: proto.Marshal output decodes back to the message's scalar and bytes fields (Unmarshal∘Marshal = id on them); deterministic encoding is NOT assumed"] = true
+	ref := m.DynV.T
+	st.bumpWM()
+	out := f.havocValue("marshal", types.NewSlice(types.Typ[types.Uint8]), st, g)
+	res := freshErrorOrNil(f, in, st, g)
+	okc := and("(= (i.tid "+res.T+") 0)", "(not (= "+ref+" 0))")
+	bv := c.bval(st, out.T, types.Typ[types.Uint8], g)
+	c.assume(g, implies(okc, "(>= (s.ref "+out.T+") "+f.x.rootW0+")")) // freshly allocated output
+	for k := 0; k < s.NumFields(); k++ {
+		fld := s.Field(k)
+		if !fld.Exported() {
+			continue
+		}
+		fn, srt := f.x.pbFieldFn(pt.Elem(), k)
+		cur := sel(st.get(c.fieldHeap(pt.Elem(), k)), ref)
+		switch fld.Type().Underlying().(type) {
+		case *types.Basic:
+			c.assume(g, implies(okc, eq(app(fn, bv), cur)))
+		case *types.Slice:
+			if srt == "BV" {
+				c.assume(g, implies(okc, eq(app(fn, bv), c.bval(st, cur, types.Typ[types.Uint8], g))))
+			}
+		}
+	}
+	// ghost: which message object these bytes were produced from
+	ms := c.ghostVar("marshalOf", "(Array Int BV)")
+	st.set(ms, ite(okc, sto(st.get(ms), ref, bv), st.get(ms)))
+	return SV{Tup: []SV{out, res}}, true
 }
